@@ -10,7 +10,7 @@ from .interp import PathLimit
 
 def discharge(ob, quick_ms=3000, cli_timeout_s=20, all_solvers=False, seed=0, workdir=None):
     neg = tm.Not(ob.goal)
-    sliced = tm.cone(list(ob.pc), [neg]) + [neg]
+    sliced = tm.cone(list(ob.pc), [neg], getattr(ob, 'defs', None)) + [neg]
     r = solve.check(sliced, quick_ms=quick_ms, cli_timeout_s=cli_timeout_s, all_solvers=all_solvers,
                     seed=seed, workdir=workdir)
     if r.verdict != "unsat" and len(sliced) < len(ob.pc) + 1:
@@ -46,9 +46,16 @@ def discharge_all(obs, quick_ms=300, cli_timeout_s=20, all_solvers=False, seed=0
     Stage 2: everything not proved goes to the command-line portfolio, several obligations at a time."""
     from concurrent.futures import ThreadPoolExecutor
     pending = []
+    seen = {}           # identical sliced queries (same hypotheses, same goal) are solved once
+    dup = []
     for ob in obs:
         neg = tm.Not(ob.goal)
-        sliced = tm.cone(list(ob.pc), [neg]) + [neg]
+        sliced = tm.cone(list(ob.pc), [neg], getattr(ob, 'defs', None)) + [neg]
+        key = frozenset(sliced)
+        if key in seen:
+            dup.append((ob, seen[key]))
+            continue
+        seen[key] = ob
         r = solve.z3_check(sliced, min(quick_ms, 300), want_model=False, seed=seed)
         if r.verdict == "unsat" and not all_solvers:
             r.all = {"z3py": ("unsat", round(r.time, 3))}
@@ -98,6 +105,11 @@ def discharge_all(obs, quick_ms=300, cli_timeout_s=20, all_solvers=False, seed=0
                 ob.result = solve.Result(verdict, win.solver if win else "portfolio", wall, None,
                                          detail="; ".join("%s: %s" % (k, v.detail) for k, v in res.items() if v.detail),
                                          all_=summary)
+    for ob, first in dup:
+        r0 = first.result
+        ob.result = solve.Result(r0.verdict, r0.solver + "(same query)", 0.0, None, r0.detail, dict(r0.all))
+        if "bounded_falsification" in first.meta:
+            ob.meta["bounded_falsification"] = first.meta["bounded_falsification"]
     # models for failed obligations (in-process z3, bounded effort) -- used for replay only
     for ob in obs:
         if ob.result.verdict == "sat":
